@@ -235,6 +235,19 @@ impl Unifiable {
                     }
                 }
 
+                // This variable is unbound. If the other term is a variable whose
+                // chain of bindings leads back to this variable ($X = $Y, $Y = $X),
+                // the two are already aliased. Binding again would create a cycle.
+                let mut walk = other;
+                while let Unifiable::LogicVar{id: walk_id, name: _} = walk {
+                    if *walk_id == id { return Some(Rc::clone(ss)); }
+                    if *walk_id >= length_src { break; }
+                    match &ss[*walk_id] {
+                        Some(term) => { walk = &*term; },
+                        None => { break; },
+                    }
+                }
+
                 let mut length_dst = length_src;
                 if id >= length_dst { length_dst = id + 1; }
 
